@@ -148,7 +148,7 @@ let run_queue (ops : ostring list) : ostring =
 (* ---------- UncompressedFile: the hand-written model Lib/UFModel.v ---------- *)
 let uf_summary (s : uf) : ostring =
   "|" ^ string_of_z (uf_tellg_val s) ^ "," ^ string_of_z (uf_tellp_val s) ^ "," ^ string_of_z s.u_fsz ^ "," ^
-  b01 (uf_good s) ^ b01 (uf_eof s) ^ "," ^ string_of_z s.u_gcount ^ "," ^
+  b01 (uf_good s) ^ b01 (uf_eof s) ^ "," ^ string_of_z s.u_gcount ^ "," ^ string_of_z s.u_buf ^ "," ^
   String.concat ";" (List.map (fun c -> string_of_z c.c_pos ^ ":" ^ string_of_z (c_size c)) s.u_data)
 let run_uf (ops : ostring list) : ostring =
   let b = Buffer.create 400 in
@@ -180,8 +180,8 @@ let run_uf (ops : ostring list) : ostring =
 
 (* ---------- the reference byte queue Lib/UFSpec.v (the specification of C15) ---------- *)
 let bq_summary (q : bq) : ostring =
-  let (((((( g, p), f), gc), _), good), eof) = bq_obs q in
-  "|" ^ string_of_z g ^ "," ^ string_of_z p ^ "," ^ string_of_z f ^ "," ^ b01 good ^ b01 eof ^ "," ^ string_of_z gc
+  let (((((( g, p), f), gc), bsz), good), eof) = bq_obs q in
+  "|" ^ string_of_z g ^ "," ^ string_of_z p ^ "," ^ string_of_z f ^ "," ^ b01 good ^ b01 eof ^ "," ^ string_of_z gc ^ "," ^ string_of_z bsz
 let run_bq (ops : ostring list) : ostring =
   let b = Buffer.create 400 in
   Buffer.add_string b "BQ";
